@@ -1,14 +1,35 @@
 /-! Offset-commit ordering monitor (C09). Events come from `harness/cmd/sim` (`cmt` scenarios): commit
 calls issued in sequence by one client (commit number k commits offset 1000+k), every OffsetCommit
 request/answer as seen at the coordinator, and the final committed offsets as the client and the group
-report them. `check` returns the rule an event breaks. Core Lean only. -/
+report them. `check` returns the rule an event breaks. Core Lean only.
+
+Partitions. The member consumes and commits up to two topics; a partition is identified by topic and number and
+written as one `Nat`: `100 * topic + number` (`topicOf`; topic 0 is "t", topic 1 is "a", whose name sorts first).
+
+Mixed answers. One OffsetCommit answer carries one code per partition and the codes may differ (a deleted
+topic's partitions are refused, the other topic's are applied; one partition's metadata is too large; …).
+`wireResp` is one event per partition, so an error for one partition changes nothing for the others of the same
+answer: each of them is still held to its own last successful commit.
+
+Tainted partitions. The fault layer sometimes rewrites, on the wire, the code of a partition the coordinator
+answered with success into an error code (`taint`): the coordinator applied that commit, the client was told it
+failed. For such a partition "the last successful commit" of the property text is not defined (successful for
+whom?), so the final-value clauses are not judged for it until a later commit for that partition is
+answered with success and seen as such by the client, which defines it again. Only the rewritten partition is
+exempt, never the rest of the answer.
+
+Deleted topics. A `topicDeleted` event is logged when the second topic is about to be deleted through an admin
+client: its partitions cease to exist, their commits are answered UNKNOWN_TOPIC_ID / UNKNOWN_TOPIC_OR_PARTITION
+from then on, and there is no final committed offset to compare (the ordering clauses still cover them). -/
 namespace Model.Commit
 
 inductive Ev where
   | issue (k : Nat) (offs : List (Nat × Nat))          -- Cs: commit k issued with (partition, offset) pairs
   | finish (k : Nat) (ok : Bool)                         -- Ce
   | wireReq (n : Nat) (part : Nat) (off : Nat)           -- Wc: a partition's commit inside request n reached the coordinator
-  | wireResp (n : Nat) (part : Nat) (err : Int)          -- Wr
+  | wireResp (n : Nat) (part : Nat) (err : Int)          -- Wr: the answer for that partition as shown to the client
+  | taint (part : Nat)                                   -- Wt: the coordinator applied the partition's commit, the answer was rewritten to an error
+  | topicDeleted (topic : Nat)                           -- Td: the topic is about to be deleted
   | clientCommitted (part : Nat) (off : Int)             -- CO: Client.CommittedOffsets at the end
   | groupCommitted (part : Nat) (off : Int)              -- GC: OffsetFetch at the end
   | incomplete
@@ -21,6 +42,8 @@ structure St where
   wire : List (Nat × Nat × Nat) := []                 -- (n, part, off) newest first
   maxWire : Nat := 0                                  -- highest commit offset seen at the coordinator so far
   applied : List (Nat × Nat) := []                    -- per partition: offset of the last request answered without error
+  tainted : List Nat := []                            -- partitions whose last answer the client was shown differs from what the coordinator did
+  gone : List Nat := []                               -- deleted topics
   co : List (Nat × Int) := []
   gc : List (Nat × Int) := []
   incomplete : Bool := false
@@ -28,6 +51,12 @@ structure St where
 deriving Repr
 
 def appliedOf (s : St) (p : Nat) : Int := match s.applied.find? (·.1 == p) with | some (_, o) => o | none => -1
+
+/-- the topic of a partition id -/
+def topicOf (p : Nat) : Nat := p / 100
+
+/-- are the final-value clauses judged for partition `p`: not tainted, topic not deleted -/
+def judged (s : St) (p : Nat) : Bool := !s.tainted.contains p && !s.gone.contains (topicOf p)
 
 def check (s : St) : Ev → Option String
   | .issue k offs =>
@@ -43,6 +72,8 @@ def check (s : St) : Ev → Option String
     else if !s.issued.any (fun i => 1000 + i.1 == off && i.2.any (fun o => o.1 == part)) then some "C09.request-for-commit-never-issued"
     else none
   | .wireResp n part _ => if s.wire.any (fun w => w.1 == n && w.2.1 == part) then none else some "C09.answer-without-request"
+  | .taint _ => none
+  | .topicDeleted _ => none
   | .clientCommitted _ _ => none
   | .groupCommitted _ _ => none
   | .incomplete => none
@@ -50,12 +81,17 @@ def check (s : St) : Ev → Option String
     if s.incomplete then none
     else if s.issued.any (fun i => !s.finished.any (·.1 == i.1)) then some "C09.commit-never-finished"
     -- after all commits finished each partition's committed offset is its value in the last successful commit
-    -- (partitions without any successful commit are not judged)
-    else if s.gc.any (fun g => s.applied.any (·.1 == g.1) && g.2 != appliedOf s g.1) then some "C09.group-offset-not-last-successful-commit"
-    else if s.applied.any (fun a => !s.gc.any (·.1 == a.1)) then some "C09.group-offset-missing"
+    -- (partitions without any successful commit are not judged, nor are tainted partitions and partitions of
+    -- a deleted topic; every other partition is, whatever the other partitions of its answers were told)
+    else if s.gc.any (fun g => judged s g.1 && s.applied.any (·.1 == g.1) && g.2 != appliedOf s g.1) then some "C09.group-offset-not-last-successful-commit"
+    else if s.applied.any (fun a => judged s a.1 && !s.gc.any (·.1 == a.1)) then some "C09.group-offset-missing"
     -- and CommittedOffsets reports the same value
-    else if s.co.any (fun c => s.applied.any (·.1 == c.1) && c.2 != appliedOf s c.1) then some "C09.committedoffsets-differs-from-last-successful-commit"
-    else if s.applied.any (fun a => !s.co.any (·.1 == a.1)) then some "C09.committedoffsets-missing-partition"
+    -- (two keys for one clause: a value that is some other commit's, and "unset": the partition is not listed or
+    -- listed with offset 0, which no commit carries and a group member shows for a partition it polled without
+    -- having a committed offset for it)
+    else if s.co.any (fun c => judged s c.1 && s.applied.any (·.1 == c.1) && c.2 != appliedOf s c.1 && c.2 != 0) then some "C09.committedoffsets-differs-from-last-successful-commit"
+    else if s.co.any (fun c => judged s c.1 && s.applied.any (·.1 == c.1) && c.2 != appliedOf s c.1) then some "C09.committedoffsets-unset-after-successful-commit"
+    else if s.applied.any (fun a => judged s a.1 && !s.co.any (·.1 == a.1)) then some "C09.committedoffsets-unset-after-successful-commit"
     else none
 
 def apply (s : St) : Ev → St
@@ -63,11 +99,14 @@ def apply (s : St) : Ev → St
   | .finish k ok => { s with finished := (k, ok) :: s.finished }
   | .wireReq n part off => { s with wire := (n, part, off) :: s.wire, maxWire := max s.maxWire off }
   | .wireResp n part err =>
+    -- a success the client is shown defines the partition's last successful commit (again)
     if err == 0 then
       match s.wire.find? (fun w => w.1 == n && w.2.1 == part) with
-      | some (_, _, off) => { s with applied := (part, off) :: s.applied.filter (·.1 != part) }
-      | none => s
+      | some (_, _, off) => { s with applied := (part, off) :: s.applied.filter (·.1 != part), tainted := s.tainted.filter (· != part) }
+      | none => { s with tainted := s.tainted.filter (· != part) }
     else s
+  | .taint part => { s with tainted := part :: s.tainted }
+  | .topicDeleted t => { s with gone := t :: s.gone }
   | .clientCommitted part off => { s with co := (part, off) :: s.co }
   | .groupCommitted part off => { s with gc := (part, off) :: s.gc }
   | .incomplete => { s with incomplete := true }
